@@ -4,6 +4,8 @@
 //! Signatures are made here, so for every signature string the harness knows which key signed
 //! which bytes and reports that as the symbol (`sym`) the Coq model works with.
 use ant_evm::{EncodedPeerId, PaymentQuote, ProofOfPayment, QuotingMetrics, RewardsAddress};
+use ant_networking::verif_hooks::{cmd as hooks, LocalSwarmCmd};
+use ant_networking::NetworkBuilder;
 use libp2p::identity::{Keypair, PublicKey};
 use libp2p::PeerId;
 use serde_json::{json, Value};
@@ -150,7 +152,41 @@ fn encoded_of(v: &Value) -> (EncodedPeerId, Vec<u8>) {
     }
 }
 
+/// `history`: a real client-mode SwarmDriver receives LocalSwarmCmd::QuoteVerification through
+/// the real handle_local_cmd, one delivery per step.  After each step the issues recorded against
+/// the peer are read (flagged = a BadQuoting issue appeared) and cleared again (record_node_issue
+/// rate-limits issues to one per ten seconds), and the stored reference quote of the peer is read.
+fn run_history(case: &Value) -> Value {
+    let rt = tokio::runtime::Builder::new_current_thread().enable_all().build().expect("runtime");
+    rt.block_on(async {
+        let (_net, _events, mut driver) = NetworkBuilder::new(Keypair::ed25519_from_bytes([0xEE; 32]).unwrap(), true)
+            .build_client()
+            .expect("client-mode driver");
+        let nkeys = case.get("nkeys").and_then(|n| n.as_u64()).unwrap_or(6);
+        let now = SystemTime::now();
+        let mut steps = vec![];
+        for d in case["deliveries"].as_array().unwrap() {
+            let peer = peer_of(&d["peer"]);
+            let (q, _desc) = quote_of(&d["q"], now, nkeys);
+            let ts = q.timestamp;
+            hooks::clear_node_issues(&mut driver, &peer);
+            let before = SystemTime::now();
+            let res = hooks::handle_local_cmd(&mut driver, LocalSwarmCmd::QuoteVerification { quotes: vec![(peer, q)] });
+            let after = SystemTime::now();
+            let (issues, is_bad) = hooks::node_issues(&driver, &peer);
+            hooks::clear_node_issues(&mut driver, &peer);
+            let stored = hooks::quotes_history(&driver).into_iter().find(|(p, _)| *p == peer).map(|(_, q)| ts_json(q.timestamp));
+            steps.push(json!({"ok": res.is_ok(), "issues": issues, "is_bad": is_bad, "flagged": !issues.is_empty(),
+                              "ts": ts_json(ts), "stored_ts": stored, "now": ts_json(before), "now_after": ts_json(after)}));
+        }
+        json!({"steps": steps, "peers_in_history": hooks::quotes_history(&driver).len()})
+    })
+}
+
 fn run(case: &Value) -> Value {
+    if case["op"].as_str() == Some("history") {
+        return run_history(case);
+    }
     let nkeys = case.get("nkeys").and_then(|n| n.as_u64()).unwrap_or(6);
     let now = SystemTime::now();
     match case["op"].as_str().unwrap() {
